@@ -443,9 +443,9 @@ def dh_case(c, rng, s):
     if r.get('rv') != '0x0':
         return
     v = p.attr(s, r['h'], CKA['VALUE'])
-    # PKCS#11: the derived key takes the LEADING bytes of the shared secret?  SoftHSM (like most tokens) truncates
-    # from the leading end, i.e. keeps the trailing bytes; both conventions agree at full length.
-    if v is None or (tlen == 128 and v != secret) or (tlen < 128 and v not in (secret[-tlen:], secret[:tlen])):
+    # PKCS#11 (CKM_DH_PKCS_DERIVE): "The truncation removes bytes from the leading end of the secret value": the key is
+    # the TRAILING tlen bytes of the shared secret
+    if v is None or v != secret[len(secret) - tlen:]:
         c.bad('CKM_DH_PKCS_DERIVE: derived value is not the shared secret y^x mod p (leading byte 0x%02x, %d bytes requested)' % (secret[0], tlen))
 
 
@@ -485,7 +485,7 @@ def ecdh_case(c, rng, s):
         if r.get('rv') == '0x0':
             v0 = p.attr(s, r['h'], CKA['VALUE'])
             n0 = {0x14: 16, 0x15: 24}.get(kt, rq)
-            if v0 is not None and kt in (0x10, 0x1f) and (n0 and len(v0) != n0 or v0 not in (secret[len(secret) - len(v0):], secret[:len(v0)])):
+            if v0 is not None and kt in (0x10, 0x1f) and (n0 and len(v0) != n0 or v0 != secret[len(secret) - len(v0):]):
                 c.bad('CKM_ECDH1_DERIVE: key type 0x%x CKA_VALUE_LEN %s: derived value %s is not cut from the shared secret %s' % (kt, req, v0.hex(), secret.hex()))
                 continue
         if c.model is not None:
@@ -537,8 +537,10 @@ def seq_c10(lib, p11drv, seed, idx):
                 mac_case(c, rng, s, hgen, gkey, haes, akey)
             elif w < 0.72:
                 digest_case(c, rng, s)
-            elif w < 0.8:
+            elif w < 0.77:
                 dh_case(c, rng, s)
+            elif w < 0.83:
+                ecdh_case(c, rng, s)
             else:
                 rsa_case(c, rng, s, pub, priv, k)
             if c.findings:
